@@ -401,6 +401,8 @@ pub enum Batch {
     C01History,
     C02Determinism,
     C02History,
+    C02Conflict,
+    C07Checker,
     C03Overlay,
     C03Faulty,
     C03Transient,
@@ -416,6 +418,8 @@ impl Batch {
             Batch::C01History => "c01-history",
             Batch::C02Determinism => "c02-determinism",
             Batch::C02History => "c02-history",
+            Batch::C02Conflict => "c02-conflict",
+            Batch::C07Checker => "c07-checker",
             Batch::C03Overlay => "c03-overlay",
             Batch::C03Faulty => "c03-overlay-f1",
             Batch::C03Transient => "c03-transient-f2",
@@ -489,7 +493,7 @@ pub fn scenarios(batch: Batch, run_seed: u64) -> (Vec<Scenario>, u64) {
     let mut sched_rng = Rng::new(derive(run_seed, &[label("schedule")]));
     let mut cfg = GenCfg::swarm(&mut knob_rng);
     match batch {
-        Batch::C03Overlay | Batch::C03Faulty | Batch::C03Transient | Batch::C04Permutation | Batch::C04Conflict => {
+        Batch::C03Overlay | Batch::C03Faulty | Batch::C03Transient | Batch::C04Permutation | Batch::C04Conflict | Batch::C02Conflict => {
             cfg.post_reads = true;
             cfg.data_out = true;
             cfg.failures = knob_rng.chance(1, 8);
@@ -497,7 +501,7 @@ pub fn scenarios(batch: Batch, run_seed: u64) -> (Vec<Scenario>, u64) {
         }
         _ => {}
     }
-    if matches!(batch, Batch::C04Permutation | Batch::C04Conflict) {
+    if matches!(batch, Batch::C04Permutation | Batch::C04Conflict | Batch::C02Conflict) {
         cfg.max_sols = cfg.max_sols.max(2 + knob_rng.usize(4));
     }
     let want_alt = matches!(batch, Batch::C01Model | Batch::C01Faulty);
@@ -505,7 +509,19 @@ pub fn scenarios(batch: Batch, run_seed: u64) -> (Vec<Scenario>, u64) {
     let shape_hash = crate::rng::label(&format!("{:?}{:?}", case.abs.preds.iter().map(|p| (&p.dag, &p.roles)).collect::<Vec<_>>(), case.numberings));
     let mut out = Vec::new();
     match batch {
-        Batch::C01Model | Batch::C01Faulty | Batch::C03Overlay | Batch::C03Faulty => {
+        Batch::C02Conflict => {
+            // Two members proposing different values for one (contract, key) are accepted by set
+            // validation (known finding D9 is about the *order* of the set); for a fixed order the
+            // post-state is what it is and must not depend on the schedule either.
+            inject_conflict(&mut fault_rng, &mut case);
+            for _ in 0..8 {
+                out.push(Scenario::Determinism {
+                    w: case.w.clone(),
+                    spec: random_spec(&mut sched_rng, false),
+                });
+            }
+        }
+        Batch::C01Model | Batch::C01Faulty | Batch::C03Overlay | Batch::C03Faulty | Batch::C07Checker => {
             if matches!(batch, Batch::C01Faulty | Batch::C03Faulty) {
                 add_faults(&mut fault_rng, &mut case, batch == Batch::C03Faulty);
             }
@@ -659,6 +675,8 @@ fn batch_of(name: &str) -> Option<Batch> {
         Batch::C01History,
         Batch::C02Determinism,
         Batch::C02History,
+        Batch::C02Conflict,
+        Batch::C07Checker,
         Batch::C03Overlay,
         Batch::C03Faulty,
         Batch::C03Transient,
@@ -687,7 +705,11 @@ pub fn plan(prop: &str, tier: &str) -> Vec<BatchPlan> {
         "C02" => vec![
             mk(Batch::C02Determinism, 8_000, 600_000, false),
             mk(Batch::C02History, 4_000, 300_000, false),
+            mk(Batch::C02Conflict, 1_500, 100_000, false),
         ],
+        // gas at the checker's level: the reference model's total and, independently, the number
+        // of operations the VMs of the execution stepped (one unit each)
+        "C07" => vec![mk(Batch::C07Checker, 6_000, 400_000, false)],
         "C03" => vec![
             mk(Batch::C03Overlay, 20_000, 1_200_000, false),
             mk(Batch::C03Faulty, 8_000, 500_000, true),
@@ -848,6 +870,7 @@ pub fn describe(prop: &str) -> PropText {
         "C01" => "cases = generated predicate DAGs (structured with two numberings, or raw/corrupted encodings) x solution sets x run configuration; each case runs the real checker under 2-3 seeded schedules against M-twopass plus the history invariants over the device log; a third batch (c01-history) checks a set right after an unrelated set in the same execution (same simulated threads, same process state, addresses reused) against the same model. distinct = distinct (workload shape hash, interleaving hash of region start/finish order, device event-log hash); non-trivial = the execution had at least one parallel region with a scheduling choice and at least one context switch (and, in the F1 batch, a fault actually fired)",
         "C02" => "cases = generated workloads (graphs, compute with several failing children, PredicateExists, F1 faults); each is run once sequentially and then under 8 seeded schedules (random/PCT depth 1-4/URW, 1..16 workers, op- or seam-granular switching); results must be identical. distinct/non-trivial as for C01",
         "C03" => "cases = workloads with pre-state, declared and computed mutations (incl. deletions, carry, wrap-around, external contracts) and post/pre reads at random graph positions; oracle M-overlay/M-twopass + history invariants; three batches: fault-free, F1 persistent bad keys (exact oracle), F2 transient error (relaxed oracle: fault-free result or the injected error, never a wrong value). distinct/non-trivial as for C01, fault batches additionally need a fired fault",
+        "C07" => "checker-level batch (c07-checker): the workloads of C01 under seeded schedules; a successful check must report exactly the reference model's total gas and, independently of the model, exactly the number of operations its VMs stepped (every node program is metered at one unit per operation; hook H1 counts, compute children included)",
         "C04" => "cases = accepted solution sets with 2+ members; each is checked under 3 seeded permutations x seeded schedules: content address, check_set verdict, two-pass verdict, total gas and per-solution computed mutations must not change. A dedicated sub-batch builds sets whose members propose different values for one (contract,key). distinct/non-trivial as for C01",
         _ => "",
     };
